@@ -27,6 +27,7 @@ func init() {
 			"J4 identity: a fork taken from Node.forks by its parsed number is returned only after its own name was compared with the requested one; J1 samples include call ids that begin with fork/chnk. " +
 			"J6 a call's qualified name used as a file-name prefix for removal ends with the separator. " +
 			"J8 makeUniquifier compares the previous uniquifier with the clock by order. " +
+			"J9 every strings.HasPrefix whose prefix derives from a node's qualified name has a prefix ending in '.' or tests the byte after it. " +
 			"NOT decided: injectivity of nested mixed array/map fork numbering (arithmetic on run-time lengths), collisions between -u<uniq> directories.",
 		Assumptions: append([]string{"net/url.PathEscape escapes '%', '/', and every byte outside the RFC 3986 unreserved/sub-delims set (evaluated from the Go standard library the checker is built with)"}, commonAssumptions...),
 	}
@@ -111,6 +112,7 @@ func runC11(c *an.Ctx) {
 	ruleJ7(c)
 	ruleJ6(c)
 	ruleUniqOrder(c, "J8")
+	ruleJ9(c)
 	// ---------------- J1 ----------------
 	repl := globalInitCall(p, pkgCore, "encodeJournalName")
 	reCall := globalInitCall(p, pkgCore, "jobJournalRe")
